@@ -106,3 +106,228 @@ static inline Op gen_ctr_chunk(int kind, int slot) {
 }
 
 }  // namespace skv
+
+// ============================================================================ API histories
+// A generator of call histories over CTR / parallel-ECB objects that keeps an abstract
+// state per slot so that it can stay inside (or deliberately step outside) the documented
+// contract.  Ops that are *invalid by the contract* carry inv=1: they must return 0 and
+// change nothing.
+namespace skv {
+
+struct HistOpts {
+    bool invalid = false;        // inject invalid calls (inv=1)
+    bool midstream = true;       // key / tweak change in mid-stream without set_counter
+    bool lifecycle = false;      // cleanup, repeated cleanup, use after cleanup, re-init
+    bool unkeyed_data = false;   // data through an initialised but un-keyed object (unspecified: differential only)
+    int inbetween = 10;          // percent of key lengths between primary sizes
+    int max_chunk_class = 2;     // 0: tiny chunks only, 2: full gchunk distribution
+};
+
+struct SlotState { int kind = -1; int be = 256; bool live = false, keyed = false, tweaked = false, ever = false; };
+
+struct HistGen {
+    HistOpts o;
+    Program p;
+    std::vector<SlotState> ss;
+
+    int add_slot(int kind, int be, int fill = 0) {
+        p.push_back(mkop(std::string("new.") + kname(kind)).set("fill", fill));
+        SlotState s; s.kind = kind; s.be = be;
+        ss.push_back(s);
+        return (int)ss.size() - 1;
+    }
+    Op base(int i, const char *fn, bool inv = false) {
+        Op op = mkop(opn(ss[i].kind, fn));
+        op.set("s", i);
+        if (inv) op.set("inv", 1);
+        return op;
+    }
+    void init(int i) {
+        SlotState &s = ss[i];
+        p.push_back(base(i, "init").set("be", s.be));
+        s.live = true; s.keyed = false; s.tweaked = false; s.ever = true;
+    }
+    void cleanup(int i) {
+        SlotState &s = ss[i];
+        p.push_back(base(i, "cleanup"));
+        s.live = false; s.keyed = false;
+    }
+    // ---- valid key / tweak / counter ops
+    void key(int i) {
+        SlotState &s = ss[i];
+        int bs = kind_bs(s.kind);
+        bool inv = !s.live;
+        if (s.kind == CM || s.kind == PM) {
+            Op k = base(i, "set_key", inv);
+            k.set("key", *gbytes(16)).set("len", 16).set("rounds", *irange(5, 8)).set("ko", *goffset());
+            if (s.kind == PM) k.set("mode", *irange(0, 1));
+            p.push_back(k);
+            if (!inv) { s.keyed = true; s.tweaked = true; }
+            return;
+        }
+        bool tk = kind_is_ctr(s.kind) && *chance(40);
+        int len = *gkeylen(bs, tk ? 2 : 3, o.inbetween);
+        Op k = base(i, tk ? "set_tweaked_key" : "set_key", inv);
+        k.set("key", *gbytes(len)).set("len", len).set("ko", *goffset());
+        p.push_back(k);
+        if (!inv) { s.keyed = true; s.tweaked = tk; }
+    }
+    void tweak(int i) {
+        SlotState &s = ss[i];
+        int bs = kind_bs(s.kind);
+        bool inv = !s.live;
+        int tl = s.kind == CM ? 8 : *rc::gen::weightedOneOf<int>({{3, rc::gen::just(bs)}, {2, irange(1, bs)}});
+        Op t = base(i, "set_tweak", inv);
+        if (*chance(15)) t.setnull("tweak"); else t.set("tweak", *gbytes(tl));
+        t.set("len", tl).set("to", *goffset());
+        p.push_back(t);
+    }
+    void counter(int i) {
+        SlotState &s = ss[i];
+        Op c = gen_set_counter(s.kind, i);
+        if (!s.live) c.set("inv", 1);
+        p.push_back(c);
+    }
+    void data(int i) {
+        SlotState &s = ss[i];
+        int bs = kind_bs(s.kind);
+        bool inv = !s.live;
+        if (kind_is_ctr(s.kind)) {
+            Op e = gen_ctr_chunk(s.kind, i);
+            if (inv) e.set("inv", 1);
+            p.push_back(e);
+        } else {
+            int nblk = *rc::gen::weightedOneOf<int>({{1, rc::gen::just(0)}, {4, irange(1, 9)}, {3, irange(0, 20)}, {1, irange(16, 40)}});
+            size_t n = (size_t)nblk * bs;
+            const char *fn = s.kind == PM ? "crypt" : (*chance(50) ? "enc" : "dec");
+            Op e = base(i, fn, inv);
+            e.set("in", *gdata(n));
+            if (s.kind == PM) e.set("tweak", *gdata(n)).set("to", *goffset());
+            if (*chance(30)) e.set("ip", 1).set("io", *goffset()); else e.set("io", *goffset()).set("oo", *goffset());
+            p.push_back(e);
+        }
+    }
+    void swap(int i) { p.push_back(base(i, "swap", !ss[i].live)); }
+
+    // ---- one invalid call on slot i (any state)
+    void invalid(int i) {
+        SlotState &s = ss[i];
+        int bs = kind_bs(s.kind);
+        bool ctr = kind_is_ctr(s.kind);
+        bool mant = s.kind == CM || s.kind == PM;
+        int w = *irange(0, ctr ? 7 : 3);
+        int huge = *rc::gen::element(0x7fffffff, (int)0x80000000, -1, 0x10000 + bs);
+        if (w == 0) {           // bad key length
+            Op k = base(i, (ctr && !mant && *chance(40)) ? "set_tweaked_key" : "set_key", true);
+            bool tk = k.name.find("tweaked") != std::string::npos;
+            int maxb = tk ? 2 : 3;
+            int len = mant ? *rc::gen::element(0, 8, 15, 17, 32, huge) : *rc::gen::element(0, 1, bs - 1, maxb * bs + 1, maxb * bs + bs, huge);
+            size_t have = (size_t)std::min<long long>((unsigned)len, (long long)3 * bs + 16);
+            k.set("key", *gbytes(have)).set("len", len);
+            if (mant) { k.set("rounds", *irange(5, 8)); if (s.kind == PM) k.set("mode", *irange(0, 1)); }
+            p.push_back(k);
+        } else if (w == 1) {    // NULL key
+            Op k = base(i, "set_key", true);
+            k.setnull("key").set("len", mant ? 16 : bs);
+            if (mant) { k.set("rounds", *irange(5, 8)); if (s.kind == PM) k.set("mode", 1); }
+            p.push_back(k);
+        } else if (w == 2 && mant) {   // bad rounds
+            Op k = base(i, "set_key", true);
+            k.set("key", *gbytes(16)).set("len", 16).set("rounds", *rc::gen::element(0, 1, 4, 9, 16, huge));
+            if (s.kind == PM) k.set("mode", 1);
+            p.push_back(k);
+        } else if (w == 2 || w == 3) {
+            if (ctr) {            // NULL object
+                const char *fns[] = {"set_counter", "encrypt", "set_key", "init", "cleanup", "set_tweak"};
+                const char *fn = fns[*irange(0, 5)];
+                Op x = mkop(opn(s.kind, fn)); x.set("s", -1).set("inv", 1);
+                if (!strcmp(fn, "set_counter")) x.set("ctr", *gbytes(bs)).set("len", bs);
+                else if (!strcmp(fn, "encrypt")) x.set("in", *gdata(*irange(0, 40)));
+                else if (!strcmp(fn, "set_key")) { x.set("key", *gbytes(mant ? 16 : bs)).set("len", mant ? 16 : bs); if (mant) x.set("rounds", 7); }
+                else if (!strcmp(fn, "set_tweak")) x.set("tweak", *gbytes(bs)).set("len", bs);
+                p.push_back(x);
+            } else {
+                int which = *irange(0, 3);
+                if (which == 0) {      // ragged size
+                    int n = *irange(1, 5 * bs);
+                    if (n % bs == 0) n += 1 + *irange(0, bs - 2);
+                    const char *fn = s.kind == PM ? "crypt" : (*chance(50) ? "enc" : "dec");
+                    Op e = base(i, fn, true);
+                    e.set("in", *gdata(n));
+                    if (s.kind == PM) e.set("tweak", *gdata(n));
+                    if (*chance(30)) e.set("ip", 1);
+                    p.push_back(e);
+                } else {               // NULL object
+                    const char *fns[] = {"set_key", "init", "cleanup", "enc"};
+                    const char *fn = fns[which];
+                    if (s.kind == PM && which == 3) fn = "crypt";
+                    Op x = mkop(opn(s.kind, fn)); x.set("s", -1).set("inv", 1);
+                    if (which == 0) { x.set("key", *gbytes(mant ? 16 : bs)).set("len", mant ? 16 : bs); if (mant) x.set("rounds", 7).set("mode", 1); }
+                    if (which == 3) { x.set("in", *gdata(2 * bs)); if (s.kind == PM) x.set("tweak", *gdata(2 * bs)); }
+                    p.push_back(x);
+                }
+            }
+        } else if (w == 4) {    // bad tweak length
+            Op t = base(i, "set_tweak", true);
+            int len = mant ? *rc::gen::element(0, 1, 4, 7, 9, 16, huge) : *rc::gen::element(0, bs + 1, 2 * bs, huge);
+            t.set("tweak", *gbytes((size_t)std::min<long long>((unsigned)len, (long long)2 * bs))).set("len", len);
+            p.push_back(t);
+        } else if (w == 5) {    // bad counter length
+            Op c = base(i, "set_counter", true);
+            int len = *rc::gen::element(bs + 1, bs + 2, 2 * bs, huge);
+            if (*chance(20)) c.setnull("ctr"); else c.set("ctr", *gbytes((size_t)std::min<long long>((unsigned)len, (long long)2 * bs)));
+            c.set("len", len);
+            p.push_back(c);
+        } else {                // NULL data pointers
+            Op e = base(i, "encrypt", true);
+            int n = *rc::gen::weightedOneOf<int>({{1, rc::gen::just(0)}, {3, irange(1, 100)}});
+            int which = *irange(0, 2);
+            if (which == 0) e.setnull("in").set("n", n);
+            else if (which == 1) e.set("in", *gdata(n)).set("onull", 1);
+            else e.setnull("in").set("n", n).set("onull", 1);
+            p.push_back(e);
+        }
+    }
+
+    // ---- one step on slot i according to its state
+    void step(int i) {
+        SlotState &s = ss[i];
+        bool ctr = kind_is_ctr(s.kind);
+        if (o.invalid && *chance(18)) { invalid(i); return; }
+        if (!s.live) {
+            if (o.lifecycle && s.ever && *chance(45)) {
+                // use after cleanup / repeated cleanup: all must be harmless and return 0
+                int w = *irange(0, 4);
+                if (w == 0) cleanup(i); else if (w == 1) key(i); else if (w == 2) data(i); else if (w == 3 && ctr) counter(i); else if (ctr) tweak(i); else data(i);
+                return;
+            }
+            if (o.lifecycle && !s.ever && *chance(25)) {   // never-initialised zeroed object
+                int w = *irange(0, 2);
+                if (w == 0) cleanup(i); else if (w == 1) key(i); else data(i);
+                return;
+            }
+            init(i);
+            return;
+        }
+        if (!s.keyed) {
+            if (o.unkeyed_data && *chance(15)) { if (ctr && *chance(40)) counter(i); else data(i); return; }
+            if (ctr && *chance(25)) { counter(i); return; }
+            key(i);
+            return;
+        }
+        int w = *irange(0, 99);
+        if (w < 50) data(i);
+        else if (w < 65) { if (ctr) counter(i); else data(i); }
+        else if (w < 75) {      // re-key
+            key(i);
+            if (ctr && !o.midstream) counter(i);
+        } else if (w < 85) {
+            if (ctr && s.tweaked) { tweak(i); if (!o.midstream) counter(i); }
+            else if (s.kind == PM) swap(i);
+            else data(i);
+        } else if (w < 92 && o.lifecycle) cleanup(i);
+        else data(i);
+    }
+};
+
+}  // namespace skv
